@@ -61,6 +61,9 @@ type Term struct {
 	Hi, Lo int
 	id     int // 0 for constants; otherwise unique within the Ctx
 	VarIdx int // index into Ctx.Vars for OpVar
+	// CT: the term is a constant or an ite-DAG whose leaves are all constants (a
+	// small-domain scalar such as a state-machine state or a counter).
+	CT bool
 }
 
 func (t *Term) IsConst() bool { return t.Op == OpConst }
@@ -126,6 +129,8 @@ type Ctx struct {
 	nextID int
 	Vars   []*Term
 	byName map[string]*Term
+	supp   map[*Term]int
+	tables map[*Term]Set256
 }
 
 func NewCtx() *Ctx {
@@ -169,6 +174,9 @@ func (c *Ctx) mk(op Op, w int, hi, lo int, args ...*Term) *Term {
 	t := &Term{Op: op, W: w, Hi: hi, Lo: lo, N: len(args), id: c.nextID}
 	c.nextID++
 	t.A[0], t.A[1], t.A[2] = k.a, k.b, k.c
+	if op == OpIte && w != 0 {
+		t.CT = isCT(k.b) && isCT(k.c)
+	}
 	c.tab[k] = t
 	return t
 }
@@ -186,6 +194,29 @@ func (c *Ctx) Var(name string, w int) *Term {
 	c.byName[name] = t
 	c.Vars = append(c.Vars, t)
 	return t
+}
+
+func isCT(t *Term) bool { return t.Op == OpConst || t.CT }
+
+// mapCT rebuilds the ite-DAG t applying f to its constant leaves; sharing is preserved.
+func (c *Ctx) mapCT(t *Term, f func(leaf *Term) *Term) *Term {
+	if t.Op == OpConst {
+		return f(t)
+	}
+	memo := map[*Term]*Term{}
+	var rec func(t *Term) *Term
+	rec = func(t *Term) *Term {
+		if t.Op == OpConst {
+			return f(t)
+		}
+		if r, ok := memo[t]; ok {
+			return r
+		}
+		r := c.Ite(t.A[0], rec(t.A[1]), rec(t.A[2]))
+		memo[t] = r
+		return r
+	}
+	return rec(t)
 }
 
 func same(a, b *Term) bool {
@@ -401,6 +432,9 @@ func (c *Ctx) Eq(a, b *Term) *Term {
 		a, b = b, a
 	}
 	if b.Op == OpConst {
+		if a.CT {
+			return c.mapCT(a, func(l *Term) *Term { return Bool(l.Val == b.Val) })
+		}
 		// push comparison with a constant through ite with a constant arm
 		if a.Op == OpIte && (a.A[1].Op == OpConst || a.A[2].Op == OpConst) {
 			return c.Ite(a.A[0], c.Eq(a.A[1], b), c.Eq(a.A[2], b))
@@ -421,6 +455,12 @@ func (c *Ctx) Eq(a, b *Term) *Term {
 			}
 			return c.Eq(in, Const(in.W, low))
 		}
+	}
+	if a.CT && a.W != 0 {
+		return c.mapCT(a, func(l *Term) *Term { return c.Eq(b, l) })
+	}
+	if b.CT && b.W != 0 {
+		return c.mapCT(b, func(l *Term) *Term { return c.Eq(a, l) })
 	}
 	if a.Op != OpConst && b.Op != OpConst && a.id > b.id {
 		a, b = b, a
@@ -459,6 +499,15 @@ func (c *Ctx) cmp(op Op, a, b *Term) *Term {
 	}
 	if a == b {
 		return Bool(op == OpUle || op == OpSle)
+	}
+	if a.CT && b.Op == OpConst {
+		return c.mapCT(a, func(l *Term) *Term { return c.cmp(op, l, b) })
+	}
+	if b.CT && a.Op == OpConst {
+		return c.mapCT(b, func(l *Term) *Term { return c.cmp(op, a, l) })
+	}
+	if a.CT && b.CT {
+		return c.mapCT(a, func(l *Term) *Term { return c.cmp(op, l, b) })
 	}
 	// narrow comparisons of zero-extended values against small constants
 	if a.Op == OpZext && b.Op == OpConst {
@@ -607,6 +656,12 @@ func (c *Ctx) Bin(op Op, a, b *Term) *Term {
 		v, _ := evalBin(op, w, a.Val, b.Val)
 		return Const(w, v)
 	}
+	if a.CT && b.Op == OpConst {
+		return c.mapCT(a, func(l *Term) *Term { return c.Bin(op, l, b) })
+	}
+	if b.CT && a.Op == OpConst {
+		return c.mapCT(b, func(l *Term) *Term { return c.Bin(op, a, l) })
+	}
 	switch op {
 	case OpAdd:
 		if a.Op == OpConst && a.Val == 0 {
@@ -702,6 +757,9 @@ func (c *Ctx) BvNot(a *Term) *Term {
 	if a.Op == OpConst {
 		return Const(a.W, ^a.Val)
 	}
+	if a.CT {
+		return c.mapCT(a, func(l *Term) *Term { return Const(l.W, ^l.Val) })
+	}
 	if a.Op == OpBvNot {
 		return a.A[0]
 	}
@@ -711,6 +769,9 @@ func (c *Ctx) BvNot(a *Term) *Term {
 func (c *Ctx) Neg(a *Term) *Term {
 	if a.Op == OpConst {
 		return Const(a.W, -a.Val)
+	}
+	if a.CT {
+		return c.mapCT(a, func(l *Term) *Term { return Const(l.W, -l.Val) })
 	}
 	return c.mk(OpNeg, a.W, 0, 0, a)
 }
@@ -725,6 +786,9 @@ func (c *Ctx) Extract(a *Term, hi, lo int) *Term {
 	}
 	if a.Op == OpConst {
 		return Const(w, a.Val>>uint(lo))
+	}
+	if a.CT {
+		return c.mapCT(a, func(l *Term) *Term { return Const(w, l.Val>>uint(lo)) })
 	}
 	if (a.Op == OpZext || a.Op == OpSext) && lo == 0 {
 		in := a.A[0]
@@ -758,8 +822,8 @@ func (c *Ctx) Zext(a *Term, w int) *Term {
 	if a.Op == OpZext {
 		return c.Zext(a.A[0], w)
 	}
-	if a.Op == OpIte && a.A[1].Op == OpConst && a.A[2].Op == OpConst {
-		return c.Ite(a.A[0], c.Zext(a.A[1], w), c.Zext(a.A[2], w))
+	if a.CT {
+		return c.mapCT(a, func(l *Term) *Term { return Const(w, l.Val) })
 	}
 	return c.mk(OpZext, w, 0, 0, a)
 }
@@ -777,8 +841,8 @@ func (c *Ctx) Sext(a *Term, w int) *Term {
 	if a.Op == OpZext {
 		return c.Zext(a.A[0], w)
 	}
-	if a.Op == OpIte && a.A[1].Op == OpConst && a.A[2].Op == OpConst {
-		return c.Ite(a.A[0], c.Sext(a.A[1], w), c.Sext(a.A[2], w))
+	if a.CT {
+		return c.mapCT(a, func(l *Term) *Term { return Const(w, sextVal(l.Val, l.W, w)) })
 	}
 	return c.mk(OpSext, w, 0, 0, a)
 }
@@ -898,3 +962,80 @@ func b2u(b bool) uint64 {
 }
 
 var _ = bits.Len
+
+// ---------- unary-predicate tabulation ----------
+
+type supp struct {
+	v int // VarIdx of the single variable, -1 none, -2 several
+}
+
+// Support returns the index of the only variable t depends on, -1 if t is
+// constant, -2 if it depends on more than one variable.
+func (c *Ctx) Support(t *Term) int {
+	if t.Op == OpConst {
+		return -1
+	}
+	if t.Op == OpVar {
+		return t.VarIdx
+	}
+	if c.supp == nil {
+		c.supp = map[*Term]int{}
+	}
+	if v, ok := c.supp[t]; ok {
+		return v
+	}
+	r := -1
+	for i := 0; i < t.N; i++ {
+		s := c.Support(t.A[i])
+		if s == -1 {
+			continue
+		}
+		if s == -2 || (r >= 0 && r != s) {
+			r = -2
+			break
+		}
+		r = s
+	}
+	c.supp[t] = r
+	return r
+}
+
+// Set256 is a set of byte values.
+type Set256 [4]uint64
+
+func (s Set256) Has(b int) bool    { return s[b>>6]&(1<<uint(b&63)) != 0 }
+func (s *Set256) Add(b int)        { s[b>>6] |= 1 << uint(b&63) }
+func (s Set256) And(o Set256) Set256 { return Set256{s[0] & o[0], s[1] & o[1], s[2] & o[2], s[3] & o[3]} }
+func (s Set256) Empty() bool       { return s[0]|s[1]|s[2]|s[3] == 0 }
+func (s Set256) SubsetOf(o Set256) bool {
+	return s[0]&^o[0] == 0 && s[1]&^o[1] == 0 && s[2]&^o[2] == 0 && s[3]&^o[3] == 0
+}
+
+var FullSet = Set256{^uint64(0), ^uint64(0), ^uint64(0), ^uint64(0)}
+
+// Table tabulates a Bool term that depends on one 8-bit variable: the set of values of
+// that variable for which it is true. ok is false if t is not of that form.
+func (c *Ctx) Table(t *Term) (v int, set Set256, ok bool) {
+	if t.W != 0 {
+		return 0, set, false
+	}
+	v = c.Support(t)
+	if v < 0 || c.Vars[v].W != 8 {
+		return 0, set, false
+	}
+	if c.tables == nil {
+		c.tables = map[*Term]Set256{}
+	}
+	if s, hit := c.tables[t]; hit {
+		return v, s, true
+	}
+	vals := make([]uint64, v+1)
+	for b := 0; b < 256; b++ {
+		vals[v] = uint64(b)
+		if Eval(t, vals, map[*Term]uint64{}) == 1 {
+			set.Add(b)
+		}
+	}
+	c.tables[t] = set
+	return v, set, true
+}
